@@ -38,10 +38,10 @@ def ctx_check(p, e, o) -> Optional[Dict[str, Any]]:
     return None
 
 
-def closed_page_programs(rnd: random.Random, n: int) -> List[Dict[str, Any]]:
+def closed_page_programs(rnd: random.Random, n: int, simple: bool = False) -> List[Dict[str, Any]]:
     """Isolated-mode programs whose page passes nothing: the page consists of text and component
     tags with constant kwargs and text-only fills.  Everything else is in the library."""
-    g = P.Gen(rnd, depth=3, width=3, collide=True)
+    g = P.Gen(rnd, depth=2, width=3, collide=True, loops=False) if simple else P.Gen(rnd, depth=3, width=3, collide=True)
     out = []
     for i in range(n):
         p = g.program(i + 1, "isolated")
@@ -122,7 +122,7 @@ def body(chk: Check, *, mc_nodes: int, n_random: int, n_pairs: int, deep: int) -
     chk.add("traces_validated_against_impl", 2 * len(cp) - st1["zone"] - st2["zone"])
     # Component.render(context=...) in isolated mode: the context must not be visible
     pv = []
-    for i, p in enumerate(closed_page_programs(random.Random(chk.seed * 17 + 9), max(50, n_pairs // 2))):
+    for i, p in enumerate(closed_page_programs(random.Random(chk.seed * 17 + 9), max(50, n_pairs // 2), simple=True)):
         q = dict(p, pyctx=True)
         q["page"] = [n for n in p["page"] if n["t"] == "comp"][:1]
         q["page"][0] = dict(q["page"][0], body="none", a=[])
